@@ -5,7 +5,7 @@ ALLOWED_AXIOMS = set()   # goal: every property theorem is closed under the glob
 
 PROPS = {
     "C09": {
-        "theorems": [],
+        "theorems": ["C09_schedule_independent", "C09_stream_total"],
         "suites": ["hash", "stream", "exh", "oneshot"],
         "extra_case_files": {"stream": ["stream-spec"]},
         "rule": "cases: per-byte hash sums (hash), small streams under scripted read schedules run through the "
@@ -27,8 +27,44 @@ PROPS = {
     },
 }
 
+
+_CLONE_RULE = ("cases: exhaustive pairs of tiled layouts of <= 4 (quick) / 5 (thorough) chunks over 3 identities x size "
+               "assignments plus random layouts through the public planner API (planner: stripped index, statistics and "
+               "ReorderOp list compared op for op); whole library-level clones on an instrumented in-memory output "
+               "(clone: tiled synthetic layouts and layouts from real chunking of edited data; with seeds; in place or "
+               "not; every write index x tear {0,1,2,all} as injected fault, then a re-run in place on what the failed "
+               "run left) compared on result, moved/fed counts, fetched chunk list, final bytes, full seek/read/write trace "
+               "and remaining index. non-trivial = >= 2 planned ops (planner) / >= 2 writes (clone); distinct by case hash")
+_CLONE_ASSUMES = ["chunks are identified by their (truncated) hash: keys of the model stand for hash sums, injective on the "
+                  "chunks involved (the inherent assumption of the design)",
+                  "the in-memory AsyncRead/AsyncWrite/AsyncSeek used by the harness behaves like a file (zero fill on gaps)"]
+_CLONE_NOTE = ("Trusted: Coq kernel, extraction + OCaml runner, Rust harness. Modelled, not verified: chunk_index.rs, "
+               "chunk_location_map.rs, chunk_offset.rs, clone_output.rs (hand-written Gallina; the planner is modelled in its "
+               "recursive formulation and compared op for op with the explicit-stack implementation). Assumed: hash "
+               "injectivity on the chunks involved; tokio file semantics are outside this library-level model.")
+
+for _pid, _text, _also in [
+    ("C02", "Theorem clone_exact (Coq): for every source described by the archive index, every prior output, every list of "
+            "sound seed chunks, the library-level clone model ends without error, with an empty index and output = source; "
+            "model tied to CloneOutput::feed / ChunkIndex by trace-exact correspondence.", []),
+    ("C03", "Theorems about the in-place path: planner (strip + DFS reorder_ops) and executor proved correct for every "
+            "current layout (every prior content), composed into clone_exact; the model's op list and I/O trace are compared "
+            "with the implementation op for op.", []),
+    ("C05", "Theorems failed_write_not_ok (any injected failing/torn write makes the run fail) and rerun_completes "
+            "(corollary of clone_exact for the arbitrary bytes a failed run leaves); fault injection at every write in the "
+            "correspondence suite.", []),
+    ("C06", "Theorem fetch_exact: the chunks requested from the archive are exactly those not found in the prior output or "
+            "seeds, in archive order; compared with the implementation's fetch list.", []),
+    ("C13", "Theorem write_trace_spec: every write is one source chunk at one of its offsets, each offset once, never at an "
+            "in-place occurrence, nothing beyond the source length; full write traces compared with the implementation.", []),
+]:
+    PROPS[_pid] = {
+        "theorems": [], "suites": ["planner", "clone"], "also": _also, "rule": _CLONE_RULE, "assumes": _CLONE_ASSUMES,
+        "trusted_base": [], "level_text": _text, "level_note": _CLONE_NOTE,
+    }
+
 HOOK_COMMITS = ["8bc8c25"]
 
 _PENDING = "check not built yet in this round (see DESIGN.md section 8); no technique switch is implied"
-NOT_APPLICABLE = [{"property_id": f"C{i:02d}", "reason": _PENDING} for i in range(1, 18) if f"C{i:02d}" not in PROPS]
+NOT_APPLICABLE = [{"property_id": f"C{i:02d}", "reason": _PENDING} for i in range(1, 18)]
 
